@@ -780,6 +780,46 @@ def s_slice_index_range(ex, callee, args, dest_ty):
     return Slice(sl.buf, sl.start + s_, e_ - s_)
 
 
+class StrVal:
+    """an abstract &str: either the caller's query or the string a StringTable holds at (abs position, table end)"""
+
+    def __init__(self, ident):
+        self.ident = ident     # z3 BV64 term identifying the string's content
+
+    def __repr__(self):
+        return f"Str({z3.simplify(self.ident)})"
+
+
+def s_strtab_get(ex, callee, args, dest_ty):
+    """StringTable::get(offset): contract decided by engine A (C15): Ok(the NUL-terminated string at offset, if valid UTF-8) or Err;
+    content and validity are uninterpreted functions of where the bytes are (absolute position, end of the table)"""
+    st = args[0].load() if isinstance(args[0], Ref) else args[0]
+    sl = as_slice(st.f[0])
+    off = args[1].e
+    fp = sl.file_pos()
+    if fp is None:
+        raise Unsupported("StringTable::get on non file-backed bytes")
+    inside = z3.ULT(off, sl.len)
+    absf = fp + off
+    end = fp + sl.len
+    okf = F("strtab_entry_is_terminated_utf8", BV64, BV64, z3.BoolSort())
+    k = ex.ctx.choose([("ok", z3.And(inside, okf(absf, end))), ("err", z3.Not(z3.And(inside, okf(absf, end))))])
+    if k == 1:
+        return Enum("Err", [Enum("BadOffset", [IntV(off)], "ParseError")], "Result")
+    return Enum("Ok", [StrVal(F("strtab_entry_content", BV64, BV64, BV64)(absf, end))], "Result")
+
+
+def s_str_eq(ex, callee, args, dest_ty):
+    def val(v):
+        while isinstance(v, Ref):
+            v = v.load()
+        return v
+    a, b = val(args[0]), val(args[1])
+    if isinstance(a, StrVal) and isinstance(b, StrVal):
+        return a.ident == b.ident
+    raise Unsupported(f"str eq on {a!r}, {b!r}")
+
+
 def s_default_none(ex, callee, args, dest_ty):
     return Enum("None", [], "Option")
 
@@ -909,6 +949,8 @@ def install(prog):
     S.append((R(r"^<Vec<\w+> as Index<usize>>::index$"), s_vec_index))
     S.append((R(r"^<Option<.*> as Default>::default$"), s_default_none))
     S.append((R(r"^Result::<.*>::ok$"), s_result_ok))
+    S.append((R(r"^StringTable::<'_>::get$"), s_strtab_get))
+    S.append((R(r"^<&str as PartialEq>::eq$|^<str as PartialEq>::eq$"), s_str_eq))
     S.append((R(r"^Option::<.*>::or$"), s_opt_or))
     S.append((R(r"^Option::<.*>::and$"), s_opt_and))
     S.append((R(r"^(Option|Result)::<.*>::map::<"), s_opt_map))
